@@ -773,6 +773,16 @@ struct ExprSer {
         // indirect call: function pointer / dependent
         o["callee"] = nullptr;
         o["fn"] = kid(CE->getCallee());
+        // a call through a function pointer / function reference is an invocation of that object:
+        // give it the shape of a functor invocation so that rules treat `stage_(x)` alike whether
+        // stage_ is a lambda, a std::function or a plain `void (&)(T)`
+        QualType CT = CE->getCallee()->IgnoreParenImpCasts()->getType();
+        if (!CT.isNull() && !isa<CXXPseudoDestructorExpr>(CE->getCallee()->IgnoreParenImpCasts()) &&
+            (CT->isFunctionPointerType() || CT->isFunctionType())) {
+          o["opcall"] = "()";
+          o["indirect"] = true;
+          obj = CE->getCallee()->IgnoreParenImpCasts();
+        }
       }
       if (obj)
         o["obj"] = kid(obj);
